@@ -53,7 +53,7 @@ func intVal(s string) *Val  { return &Val{K: KInt, T: types.Typ[types.Int], S: s
 // autoLoad turns a pointer-to-struct produced by field selection into the struct value when a value is needed.
 func (g *Gen) autoLoad(env *Env, v *Val) *Val {
 	if v.K == KPtr && v.T != nil {
-		if structOf(deref(v.T)) != nil && strings.HasPrefix(v.S, "(|sub|") {
+		if structOf(deref(v.T)) != nil && strings.HasPrefix(v.S, "(|sub!") {
 			return g.loadStruct(env.cur, deref(v.T), v.S)
 		}
 	}
@@ -205,6 +205,17 @@ func (g *Gen) evalBin(env *Env, x *SExpr) *Val {
 	switch op {
 	case "==", "!=":
 		a, b = g.autoLoad(env, a), g.autoLoad(env, b)
+		if a.K == KSlice && b.K == KPtr && b.S == "0" || b.K == KSlice && a.K == KPtr && a.S == "0" {
+			sl := a
+			if b.K == KSlice {
+				sl = b
+			}
+			e := eq(sl.Arr, "0")
+			if op == "!=" {
+				e = not(e)
+			}
+			return boolVal(e)
+		}
 		if a.K == KStruct && b.K == KPtr || a.K == KPtr && b.K == KStruct {
 			specErr(x, "comparing struct with pointer")
 		}
@@ -279,7 +290,12 @@ func (g *Gen) evalSel(env *Env, x *SExpr) *Val {
 }
 
 func (g *Gen) loadAtNoFacts(st *State, prefix string, t types.Type, addr string) *Val {
-	return g.loadAt(st, prefix, t, addr)
+	v := g.loadAt(st, prefix, t, addr)
+	// language-level facts (0 <= len <= cap, ...) for loads whose address mentions no bound variable
+	if !strings.Contains(addr, "q!") && !strings.Contains(addr, "a!") && !strings.Contains(addr, "u!") && (v.K == KSlice || v.K == KString) {
+		g.typeFacts(st, v, "true")
+	}
+	return v
 }
 
 func structValField(v *Val, name string) (*Val, bool) {
@@ -415,7 +431,18 @@ func (g *Gen) evalQuant(env *Env, x *SExpr) *Val {
 			}()
 			if sv != nil && (sv.K == KSlice || sv.K == KString) {
 				et := elemTypeOf(sv.T)
-				if et != nil && kindOf(et) != KStruct && kindOf(et) != KArray {
+				if et != nil && kindOf(et) == KStruct {
+					g.n++
+					bn := fmt.Sprintf("q!%s!%d", x.Vars[0].Name, g.n)
+					kv := bn
+					if sv.Off != "0" {
+						kv = "(- " + bn + " " + sv.Off + ")"
+					}
+					n.vars[x.Vars[0].Name] = &Val{K: KInt, T: types.Typ[types.Int], S: kv}
+					decls = append(decls, fmt.Sprintf("(%s Int)", bn))
+					pats = append(pats, ":pattern ("+g.elemAddr(et, sv.Arr, bn)+")")
+					absDone = true
+				} else if et != nil && kindOf(et) != KStruct && kindOf(et) != KArray {
 					g.n++
 					bn := fmt.Sprintf("q!%s!%d", x.Vars[0].Name, g.n)
 					kv := bn
@@ -473,6 +500,15 @@ func (g *Gen) evalQuant(env *Env, x *SExpr) *Val {
 }
 
 func (g *Gen) evalCall(env *Env, x *SExpr) *Val {
+	if i := strings.Index(x.Name, "."); i > 0 {
+		// pkg.name(...) : spec functions and macros share one global namespace
+		rest := x.Name[i+1:]
+		if g.P.specFuns[rest] != nil || g.P.macros[rest] != nil {
+			c := *x
+			c.Name = rest
+			x = &c
+		}
+	}
 	switch x.Name {
 	case "len":
 		a := g.eval(env, x.Args[0])
@@ -544,6 +580,19 @@ func (g *Gen) evalCall(env *Env, x *SExpr) *Val {
 		n.cur = env.now
 		n.now = nil
 		return g.eval(&n, x.Args[0])
+	case "elem":
+		// elem(a, j, "pkg.T"): pointer to element j (absolute index) of struct array a
+		a := g.eval(env, x.Args[0])
+		j := g.eval(env, x.Args[1])
+		t := g.P.resolveType(x.Args[2].Str, env.pkg)
+		if t == nil || structOf(t) == nil {
+			specErr(x, "elem needs a struct type")
+		}
+		return &Val{K: KPtr, T: types.NewPointer(t), S: g.elemAddr(t, a.S, j.S)}
+	case "membyte":
+		a := g.eval(env, x.Args[0])
+		i := g.eval(env, x.Args[1])
+		return &Val{K: KInt, T: types.Typ[types.Uint8], S: g.byteAt(env.cur, types.Typ[types.Uint8], a.S, i.S)}
 	case "sameslice":
 		a := g.eval(env, x.Args[0])
 		b := g.eval(env, x.Args[1])
